@@ -442,7 +442,7 @@ func c25FragWords(s string, env func(string) string) int {
 
 // ---------- generators ----------
 
-var c25Names = []string{"x", "y", "e", "u", "n", "m", "sp", "q", "HOME", "x1", "_v"}
+var c25Names = []string{"x", "y", "e", "u", "n", "m", "sp", "q", "HOME", "x1", "_v", "pw", "st", "dt", "w3", "qm", "br"}
 
 func c25GenEnv(r *Rand) [][2]string {
 	var env [][2]string
@@ -469,6 +469,15 @@ func c25GenEnv(r *Rand) [][2]string {
 	}
 	if r.Chance(30) {
 		add("x1", "one")
+	}
+	// values holding the characters that pattern-removal patterns quote
+	if r.Chance(45) {
+		add("pw", r.Pick([]string{`C:\dir\file.txt`, `a\b`, `\x\`}))
+		add("st", r.Pick([]string{"a*b*c", "*", "x*"}))
+		add("dt", r.Pick([]string{"a.b.c", "file.tar.gz", ".x."}))
+		add("w3", r.Pick([]string{"one two three", "a b"}))
+		add("qm", r.Pick([]string{"what?no", "a?b?c"}))
+		add("br", r.Pick([]string{"a[b]c", "x[1][2]"}))
 	}
 	if r.Chance(30) {
 		add("_v", "under")
@@ -522,6 +531,49 @@ func c25GenArith(r *Rand, depth int) string {
 	return s
 }
 
+// c25GenRemoval: ${v#p} ${v##p} ${v%p} ${v%%p} with a pattern "star + literal" / "literal + star" whose
+// literal has escaped or quoted special characters, over a value that contains them (search leg
+// only; the operators are property C21's).
+func c25GenRemoval(r *Rand, inWords bool) string {
+	type vl struct {
+		name string
+		lits []string
+	}
+	choices := []vl{
+		{"pw", []string{`\\`, `'\'`, `"\\"`, `\\d`, `r\\`}},
+		{"st", []string{`\*`, `'*'`, `"*"`, `\*b`, `b'*'`}},
+		{"dt", []string{`\.`, `'.'`, `.`, `\.b`, `"."t`}},
+		{"w3", []string{`\ `, `' '`, `" "`, `\ t`, `e' '`}},
+		{"qm", []string{`\?`, `'?'`, `"?"`, `t\?`, `'?'n`}},
+		{"br", []string{`\[`, `'['`, `"["`, `\]`, `']'`}},
+		{"x", []string{"a", "l", `\a`, `'a'`}},
+	}
+	c := choices[r.Intn(len(choices))]
+	lit := r.Pick(c.lits)
+	op := r.Pick([]string{"#", "##", "%", "%%"})
+	var pat string
+	switch k := r.Intn(10); {
+	case k < 7:
+		if op[0] == '#' {
+			pat = "*" + lit
+		} else {
+			pat = lit + "*"
+		}
+	case k < 8:
+		pat = "*" + lit + "*"
+	case k < 9:
+		pat = lit
+	default:
+		if op[0] == '#' {
+			pat = lit + "*"
+		} else {
+			pat = "*" + lit
+		}
+	}
+	_ = inWords
+	return "${" + c.name + op + pat + "}"
+}
+
 func c25GenExpansion(r *Rand, rich bool) string {
 	switch k := r.Intn(20); {
 	case k < 6:
@@ -530,8 +582,10 @@ func c25GenExpansion(r *Rand, rich bool) string {
 		return "${" + r.Pick(c25Names) + "}"
 	case k < 16:
 		return "${" + r.Pick(c25Names) + r.Pick([]string{":-", "-", ":+", "+"}) + c25GenWordOfOp(r, rich) + "}"
-	case k < 17:
+	case k < 16:
 		return "$((" + c25GenArith(r, 0) + "))"
+	case k < 18:
+		return c25GenRemoval(r, false)
 	case k < 19:
 		// pattern replacement (search leg only; the operator itself is property C21's): the
 		// replacement text arrives through variables, `$`-sequences in it must stay literal
@@ -808,6 +862,9 @@ func c25Excl(cs c25Case, fields bool) string {
 			}
 			if k < len(s) && s[k] == '[' {
 				return "special-param"
+			}
+			if k < len(s) && (s[k] == '#' || s[k] == '%') {
+				continue // pattern removal: quotes and backslashes in the pattern are compared with bash
 			}
 			// the word of an operator, up to the matching brace
 			if w := k; w < len(s) {
